@@ -46,31 +46,38 @@ def compressModelled : List String := [
   "v0 = rol64(v0, 32)", "v2 += v1", "v0 += v3", "v1 = rol64(v1, 17)", "v3 = rol64(v3, 21)",
   "v1 ^= v2", "v3 ^= v0", "v2 = rol64(v2, 32)"]
 
-/-- the `switch (len - blocks)` with fall-through: `last7 |= m[i + j] << 8j` for
-    `j = rem-1, …, 0` -/
-def packTail (last7 : Word) (tail : Bytes) : Word :=
-  (List.range tail.length).reverse.foldl
-    (fun acc j => acc ||| ((tail.getD j 0).setWidth 64 <<< (8 * j))) last7
+/-- the `switch (len - blocks)` with fall-through, entered at `case k`:
+    `case k: last7 |= (uint64)m[i + k-1] << 8(k-1);  /* fall through to case k-1 */` -/
+def packFrom (tail : Bytes) : Nat → Word → Word
+  | 0, last7 => last7
+  | k + 1, last7 => packFrom tail k (last7 ||| ((tail.getD k 0).setWidth 64 <<< (8 * k)))
+
+def packTail (last7 : Word) (tail : Bytes) : Word := packFrom tail tail.length last7
+
+/-- `v3 ^= mi; TLX_SIPCOMPRESS(); TLX_SIPCOMPRESS(); v0 ^= mi;` (loop body, and again for `last7`) -/
+def absorb (v : V) (mi : Word) : V :=
+  let v := compress (compress { v with v3 := v.v3 ^^^ mi })
+  { v with v0 := v.v0 ^^^ mi }
+
+/-- `v2 ^= 0xff; 4 × TLX_SIPCOMPRESS(); return v0 ^ v1 ^ v2 ^ v3;` -/
+def finish (v : V) : Word :=
+  let v := { v with v2 := v.v2 ^^^ Gen.sipFinalXor }
+  let v := compress (compress (compress (compress v)))
+  v.v0 ^^^ v.v1 ^^^ v.v2 ^^^ v.v3
 
 /-- `siphash_plain(key, m, len)` with `len = msg.length` -/
 def siphashPlain (key msg : Bytes) : Word :=
-  let k0 := leWord 64 (key.take 8)                 -- bswap64_le(*(uint64*)(key + 0))
+  let k0 := leWord 64 (key.take 8)                 -- memcpy(&k0, key + 0, 8); bswap64_le
   let k1 := leWord 64 ((key.drop 8).take 8)
   let v : V := ⟨k0 ^^^ Gen.sipInit.getD 0 0, k1 ^^^ Gen.sipInit.getD 1 0,
                 k0 ^^^ Gen.sipInit.getD 2 0, k1 ^^^ Gen.sipInit.getD 3 0⟩
   let len := msg.length
   let last7 : Word := BitVec.ofNat 64 (len % 256) <<< 56          -- (len & 0xff) << 56
   let blocks := len / 8 * 8                                        -- len & ~7
-  let v := (List.range (blocks / 8)).foldl (fun (v : V) b =>
-    let mi := leWord 64 ((msg.drop (8 * b)).take 8)
-    let v := compress (compress { v with v3 := v.v3 ^^^ mi })
-    { v with v0 := v.v0 ^^^ mi }) v
+  -- for (i = 0; i < blocks; i += 8) { mi = load(m + i); … }
+  let v := (List.range (blocks / 8)).foldl (fun (v : V) b => absorb v (leWord 64 ((msg.drop (8 * b)).take 8))) v
   let last7 := packTail last7 (msg.drop blocks)
-  let v := compress (compress { v with v3 := v.v3 ^^^ last7 })
-  let v := { v with v0 := v.v0 ^^^ last7 }
-  let v := { v with v2 := v.v2 ^^^ Gen.sipFinalXor }
-  let v := compress (compress (compress (compress v)))
-  v.v0 ^^^ v.v1 ^^^ v.v2 ^^^ v.v3
+  finish (absorb v last7)
 
 /-! ### SSE2 -/
 
@@ -154,6 +161,29 @@ def compressSSE2Modelled : List String := [
   "v02 = _mm_shuffle_epi32(v20, _MM_SHUFFLE(0, 1, 3, 2))",
   "v13 = _mm_xor_si128(v13, v20)"]
 
+/-- `v13 ^= _mm_slli_si128(mi, 8); 2 × TLX_SIPCOMPRESS(); v02 ^= mi;` -/
+def absorbSSE2 (s : M128 × M128) (mi : M128) : M128 × M128 :=
+  let (v02, v13) := s
+  let v13 := xor_si128 v13 (slli_si128_8 mi)
+  let (v02, v13) := compressSSE2 (compressSSE2 (v02, v13))
+  (xor_si128 v02 mi, v13)
+
+/-- `v02 ^= siphash_final; 4 × TLX_SIPCOMPRESS(); v02 ^= v13; v02 ^= shuffle(v02, 1,0,3,2);
+    lo = cvtsi128_si32(v02); hi = cvtsi128_si32(srli_si128(v02, 4)); return hi << 32 | lo;` -/
+def finishSSE2 (s : M128 × M128) : Word :=
+  let (v02, v13) := s
+  let v02 := xor_si128 v02 ⟨Gen.sipFinalSSE2.getD 0 0, Gen.sipFinalSSE2.getD 1 0⟩
+  let (v02, v13) := compressSSE2 (compressSSE2 (compressSSE2 (compressSSE2 (v02, v13))))
+  let v02 := xor_si128 v02 v13
+  let v02 := xor_si128 v02 (shuffle_epi32 v02 1 0 3 2)
+  let lo := cvtsi128_si32 v02
+  let hi := cvtsi128_si32 (srli_si128_4 v02)
+  (hi.setWidth 64 <<< 32) ||| lo.setWidth 64
+
+/-- `mi = _mm_unpacklo_epi32(_mm_cvtsi32_si128((uint32)last7), _mm_cvtsi32_si128((uint32)(last7 >> 32)))` -/
+def lastSSE2 (last7 : Word) : M128 :=
+  unpacklo_epi32 (cvtsi32_si128 (last7.setWidth 32)) (cvtsi32_si128 ((last7 >>> 32).setWidth 32))
+
 /-- `siphash_sse2(key, m, len)` -/
 def siphashSSE2 (key msg : Bytes) : Word :=
   let k := loadu_si128 key
@@ -164,23 +194,9 @@ def siphashSSE2 (key msg : Bytes) : Word :=
   let len := msg.length
   let last7 : Word := BitVec.ofNat 64 (len % 256) <<< 56
   let blocks := len / 8 * 8
-  let (v02, v13) := (List.range (blocks / 8)).foldl (fun (s : M128 × M128) b =>
-    let (v02, v13) := s
-    let mi := loadl_epi64 (msg.drop (8 * b))
-    let v13 := xor_si128 v13 (slli_si128_8 mi)
-    let (v02, v13) := compressSSE2 (compressSSE2 (v02, v13))
-    (xor_si128 v02 mi, v13)) (v02, v13)
+  let s := (List.range (blocks / 8)).foldl (fun (s : M128 × M128) b =>
+    absorbSSE2 s (loadl_epi64 (msg.drop (8 * b)))) (v02, v13)
   let last7 := packTail last7 (msg.drop blocks)
-  let mi := unpacklo_epi32 (cvtsi32_si128 (last7.setWidth 32)) (cvtsi32_si128 ((last7 >>> 32).setWidth 32))
-  let v13 := xor_si128 v13 (slli_si128_8 mi)
-  let (v02, v13) := compressSSE2 (compressSSE2 (v02, v13))
-  let v02 := xor_si128 v02 mi
-  let v02 := xor_si128 v02 ⟨Gen.sipFinalSSE2.getD 0 0, Gen.sipFinalSSE2.getD 1 0⟩
-  let (v02, v13) := compressSSE2 (compressSSE2 (compressSSE2 (compressSSE2 (v02, v13))))
-  let v02 := xor_si128 v02 v13
-  let v02 := xor_si128 v02 (shuffle_epi32 v02 1 0 3 2)
-  let lo := cvtsi128_si32 v02
-  let hi := cvtsi128_si32 (srli_si128_4 v02)
-  (hi.setWidth 64 <<< 32) ||| lo.setWidth 64
+  finishSSE2 (absorbSSE2 s (lastSSE2 last7))
 
 end TlxVerif.C14.Model.Sip
